@@ -14,7 +14,7 @@ def all_in(s, alphabet) -> Bool:
     return (s[len(s) - 1] in alphabet) and all_in(s[:len(s) - 1], alphabet)
 
 
-@uninterpreted
+@ghost
 def cc_ok(type_id, value) -> Bool:
     """the constraints-checker object `type_id` accepts `value` (ghost: each concrete encode defines it)"""
     return True
